@@ -10,14 +10,19 @@ Proved here for all inputs: entry without predecessor, every block reachable, su
 predecessor sets mirror each other and mention only existing blocks, `i` dominates `j` only if
 `i ≤ j`, and the graph is `Rooted` in the sense of C15 (so C15's theorems apply to every CFG and
 the two `assert!`s of `DominatorTree::new` cannot fire on it).
-A branch is only ever the last statement of its block (`C12_branch_last`).
-The remaining clauses of C12 — branch targets among the successors, at most two successors,
-recorded loop depth — are part of the executable predicate
-`CfgSpec.wfProblems`, which `checks/c12.py` evaluates on every real CFG (before and after SSA)
-and on the model's CFG; they are *not* proved for all inputs yet (`C12_full_statement` keeps the
-complete claim visible).
+A branch is only ever the last statement of its block (`C12_branch_last`), its targets are existing
+blocks among the successors, and no block has more than two successors — one without a branch
+(`C12_successors`, `C12_branch_targets`; `Lemmas/CfgClasses.lean`: every block is in one of five classes,
+by the same induction that proves C13's trace inclusion).
+The recorded loop depth of a block is the source nesting depth of every statement in it
+(`C12_loop_depth`, `Lemmas/CfgDepth.lean`; the branch of a `while` counts as outside its own loop).
+So every clause of C12 is a theorem about the lifting model.  The executable predicate
+`CfgSpec.wfProblems` (all clauses at once) is what `checks/c12.py` evaluates on every real CFG (before
+and after SSA) and on the model's CFG — the tie to the code.
 -/
 import Circomspect.Lemmas.CfgLemmas
+import Circomspect.Lemmas.CfgClasses
+import Circomspect.Lemmas.CfgDepth
 
 namespace Circomspect.C12
 open Circomspect CfgLift CfgLemmas CfgSpec Graph
@@ -67,6 +72,26 @@ theorem C12_preds_in_range (body : Stmt) (bs : List Block) (ps : List Nat) (h : 
 theorem C12_branch_last (body : Stmt) (bs : List Block) (ps : List Nat) (h : lift body = .ok bs ps) :
     ∀ (i : Nat) (b : Block), bs[i]? = some b → ∀ s, s ∈ b.stmts.dropLast → isBranch s = false :=
   lift_branch_last body bs ps h
+
+/-- no block has more than two successors, and a block that does not end in a branch has at most one -/
+theorem C12_successors (body : Stmt) (bs : List Block) (ps : List Nat) (h : lift body = .ok bs ps) :
+    ∀ (i : Nat) (b : Block), bs[i]? = some b →
+      b.succs.length ≤ 2 ∧ (TracePaths.trailingBranch b = false → b.succs.length ≤ 1) :=
+  fun i b hb => let c := TracePaths.cls_successors (TracePaths.lift_cls body bs ps h i b hb); ⟨c.1, c.2.1⟩
+
+/-- the targets of the branch that ends a block are existing blocks among its successors -/
+theorem C12_branch_targets (body : Stmt) (bs : List Block) (ps : List Nat) (h : lift body = .ok bs ps) :
+    ∀ (i : Nat) (b : Block), bs[i]? = some b → ∀ l t f, b.stmts.getLast? = some (IStmt.branch l t f) →
+      (t ∈ b.succs ∧ t < bs.length) ∧ ∀ j, f = some j → j ∈ b.succs ∧ j < bs.length := by
+  intro i b hb l t f hl
+  have c := (TracePaths.cls_successors (TracePaths.lift_cls body bs ps h i b hb)).2.2 l t f hl
+  have hrange := (C12_shape body bs ps h).2.2.2.1 i b hb
+  exact ⟨⟨c.1, hrange.1 t c.1⟩, fun j hj => ⟨c.2 j hj, hrange.1 j (c.2 j hj)⟩⟩
+
+/-- the recorded depth of a block is the loop nesting depth, in the source, of every statement it holds -/
+theorem C12_loop_depth (body : Stmt) (bs : List Block) (ps : List Nat) (h : lift body = .ok bs ps) :
+    ∀ (i : Nat) (b : Block), bs[i]? = some b → ∀ st, st ∈ b.stmts → (Trace.stmtLoc st, b.depth) ∈ depths body 0 :=
+  TracePaths.lift_depth body bs ps h
 
 /-- non-vacuity: `while (c) { if (d) { s } }  s'` lifts, to five blocks -/
 def exBody : Stmt :=
